@@ -4,6 +4,8 @@
 use crate::util::*;
 use serde_json::{json, Value};
 use surf_n_term::encoder::{ColorDepth, Encoder, TTYEncoder};
+use surf_n_term::render::TerminalRenderer;
+use surf_n_term::{Cell, Error, SurfaceMut, Terminal, TerminalEvent, TerminalSize, TerminalWaker};
 use surf_n_term::{
     DecMode, Face, FaceAttrs, FaceModify, Image, Position, Size, SurfaceOwned, TerminalCaps, TerminalColor,
     TerminalCommand, UnderlineStyle, RGBA,
@@ -328,7 +330,294 @@ pub fn oracle_answer(caps: &TerminalCaps, c: RGBA) -> Option<u64> {
     }
 }
 
+// ------------------------------------------------------------------ renderer sessions (C05 o C01)
+
+/// a Terminal that records the commands the renderer issues
+struct RecTerm {
+    size: TerminalSize,
+    cmds: Vec<TerminalCommand>,
+    caps: TerminalCaps,
+}
+impl std::io::Write for RecTerm {
+    fn write(&mut self, buf: &[u8]) -> std::io::Result<usize> {
+        Ok(buf.len())
+    }
+    fn flush(&mut self) -> std::io::Result<()> {
+        Ok(())
+    }
+}
+impl Terminal for RecTerm {
+    fn execute(&mut self, cmd: TerminalCommand) -> Result<(), Error> {
+        self.cmds.push(cmd);
+        Ok(())
+    }
+    fn poll(&mut self, _timeout: Option<std::time::Duration>) -> Result<Option<TerminalEvent>, Error> {
+        Ok(None)
+    }
+    fn size(&self) -> Result<TerminalSize, Error> {
+        Ok(self.size)
+    }
+    fn position(&mut self) -> Result<Position, Error> {
+        Ok(Position::new(0, 0))
+    }
+    fn waker(&self) -> TerminalWaker {
+        TerminalWaker::new(|| Ok(()))
+    }
+    fn frames_pending(&self) -> usize {
+        0
+    }
+    fn frames_drop(&mut self) {}
+    fn dyn_ref(&mut self) -> &mut dyn Terminal {
+        self
+    }
+    fn capabilities(&self) -> &TerminalCaps {
+        &self.caps
+    }
+}
+
+const S_NARROW: [u32; 6] = [0x20, 0x61, 0x62, 0x78, 0x2500, 0xE9];
+const S_WIDE: [u32; 2] = [0x4E16, 0x1F600];
+
+fn shows_on_blank(f: Face) -> bool {
+    f.attrs.underline() != UnderlineStyle::None || f.attrs.contains(FaceAttrs::REVERSE) || f.attrs.contains(FaceAttrs::STRIKE)
+}
+/// how a space printed in face f looks / how a cell erased under face f looks (as in the C01 harness)
+fn look_of_space(f: Face) -> Face {
+    if shows_on_blank(f) {
+        let mut attrs = FaceAttrs::EMPTY;
+        for a in [FaceAttrs::REVERSE, FaceAttrs::STRIKE] {
+            if f.attrs.contains(a) {
+                attrs = attrs.insert(a);
+            }
+        }
+        attrs = attrs.insert(FaceAttrs::from(f.attrs.underline()));
+        Face::new(f.fg, f.bg, attrs)
+    } else {
+        Face::new(None, f.bg, FaceAttrs::EMPTY)
+    }
+}
+fn look_of_erased(f: Face) -> Face {
+    Face::new(None, f.bg, FaceAttrs::EMPTY)
+}
+
+fn session_faces() -> Vec<Face> {
+    let red = Some(RGBA::new(200, 30, 30, 255));
+    let blue = Some(RGBA::new(20, 40, 160, 255));
+    let mut faces = vec![
+        Face::default(),
+        Face::new(red, None, FaceAttrs::EMPTY),
+        Face::new(None, blue, FaceAttrs::EMPTY),
+        Face::new(Some(RGBA::new(250, 250, 10, 255)), Some(RGBA::new(10, 90, 10, 255)), FaceAttrs::BOLD),
+        Face::new(red, blue, FaceAttrs::ITALIC | FaceAttrs::BLINK),
+        Face::new(None, blue, FaceAttrs::UNDERLINE),
+        Face::new(red, None, FaceAttrs::REVERSE),
+        Face::new(None, blue, FaceAttrs::STRIKE | FaceAttrs::UNDERLINE_CURLY),
+    ];
+    let n = faces.len();
+    for i in 0..n {
+        for f in [look_of_space(faces[i]), look_of_erased(faces[i])] {
+            if !faces.contains(&f) {
+                faces.push(f);
+            }
+        }
+    }
+    faces
+}
+
+fn face_bits(f: Face) -> u64 {
+    let u = match f.attrs.underline() {
+        UnderlineStyle::None => 0,
+        UnderlineStyle::Straight => 1,
+        UnderlineStyle::Double => 2,
+        UnderlineStyle::Curly => 3,
+        UnderlineStyle::Dotted => 4,
+        UnderlineStyle::Dashed => 5,
+    };
+    let flags = [FaceAttrs::BOLD, FaceAttrs::ITALIC, FaceAttrs::BLINK, FaceAttrs::REVERSE, FaceAttrs::STRIKE];
+    u + flags.iter().enumerate().map(|(k, a)| if f.attrs.contains(*a) { 8u64 << k } else { 0 }).sum::<u64>()
+}
+
+/// One renderer session: surfaces are [[ [face id, char], .. ], ..] per frame.
+fn run_session(input: &Value) -> Case {
+    let h = input["h"].as_u64().unwrap_or(2) as usize;
+    let w = input["w"].as_u64().unwrap_or(4) as usize;
+    let faces = session_faces();
+    let frames: Vec<Vec<Vec<(usize, u32)>>> = input["frames"]
+        .as_array()
+        .map(|fs| {
+            fs.iter()
+                .map(|s| {
+                    s.as_array()
+                        .map(|rows| {
+                            rows.iter()
+                                .map(|r| {
+                                    r.as_array()
+                                        .map(|cs| {
+                                            cs.iter()
+                                                .map(|c| (c[0].as_u64().unwrap_or(0) as usize % faces.len(), c[1].as_u64().unwrap_or(32) as u32))
+                                                .collect()
+                                        })
+                                        .unwrap_or_default()
+                                })
+                                .collect()
+                        })
+                        .unwrap_or_default()
+                })
+                .collect()
+        })
+        .unwrap_or_default();
+    let idx = |f: Face| faces.iter().position(|x| *x == f).unwrap_or(9999);
+    let faces2 = faces.clone();
+    let frames2 = frames.clone();
+    let res = catch(move || {
+        let mut term = RecTerm {
+            size: TerminalSize { cells: Size::new(h, w), pixels: Size::new(h * 20, w * 10) },
+            cmds: vec![],
+            caps: TerminalCaps { depth: ColorDepth::TrueColor, glyphs: false, kitty_keyboard: false },
+        };
+        let mut rend = TerminalRenderer::new(&mut term, false).expect("renderer");
+        // the bytes of everything the renderer issues go through ONE encoder object
+        let mut enc = TTYEncoder::new(term.caps.clone());
+        let mut out = vec![];
+        for surf in &frames2 {
+            term.cmds.clear();
+            {
+                let mut s = rend.surface();
+                for (r, row) in surf.iter().enumerate() {
+                    for (c, (f, ch)) in row.iter().enumerate() {
+                        if r < h && c < w {
+                            s.set(Position::new(r, c), Cell::new_char(faces2[*f], char::from_u32(*ch).unwrap_or(' ')));
+                        }
+                    }
+                }
+            }
+            rend.frame(&mut term).expect("frame");
+            let mut names = vec![];
+            let mut bytes: Option<Vec<u8>> = Some(vec![]);
+            for cmd in term.cmds.drain(..) {
+                names.push(match &cmd {
+                    TerminalCommand::Face(f) => format!("Screen.CFace {}", faces2.iter().position(|x| x == f).unwrap_or(9999)),
+                    TerminalCommand::CursorTo(p) => format!("Screen.CCursorTo {}%nat {}%nat", p.row, p.col),
+                    TerminalCommand::Char(c) => format!("Screen.CChar {}", *c as u32),
+                    TerminalCommand::EraseChars(n) => format!("Screen.CEraseChars {}%nat", n),
+                    TerminalCommand::DecModeSet { enable, mode: DecMode::SynchronizedOutput } => format!("Screen.CSync {}", enable),
+                    _ => "Screen.COther".to_string(),
+                });
+                if let Some(b) = bytes.as_mut() {
+                    if enc.encode(&mut *b, cmd).is_err() {
+                        bytes = None;
+                    }
+                }
+            }
+            out.push((names, bytes));
+        }
+        out
+    });
+    let mut chars: Vec<u32> = vec![32];
+    for s in &frames {
+        for r in s {
+            for (_, ch) in r {
+                if !chars.contains(ch) {
+                    chars.push(*ch);
+                }
+            }
+        }
+    }
+    let width = |ch: u32| if S_WIDE.contains(&ch) { 2 } else { 1 };
+    let coq_face = |f: &Face| {
+        format!("(Encode.mkFace {} {} {})", coq_orgba(f.fg), coq_orgba(f.bg), face_bits(*f))
+    };
+    let obs: Vec<String> = match &res {
+        Some(out) => frames
+            .iter()
+            .zip(out.iter())
+            .map(|(s, (names, bytes))| {
+                format!(
+                    "C05bCorr.mkFrameObs {} {} {}",
+                    clist(s.iter().map(|r| clist(r.iter().map(|(f, ch)| format!("Cell.mkcell {} (Cell.KChar {})", f, ch))))),
+                    clist(names.iter().cloned()),
+                    copt(bytes.as_ref().map(|b| cbytes(b)))
+                )
+            })
+            .collect(),
+        None => vec!["C05bCorr.mkFrameObs [] [] None".to_string()],
+    };
+    let coq = format!(
+        "Session (C05bCorr.mkSession {} {} {} {} {} {} {} {})",
+        h,
+        w,
+        clist(chars.iter().map(|c| format!("({}, {})", c, width(*c)))),
+        clist(faces.iter().enumerate().map(|(i, f)| format!("({}, {})", i, coq_face(f)))),
+        clist((0..faces.len()).map(|i| format!("({}, {})", i, idx(look_of_space(faces[i]))))),
+        clist((0..faces.len()).map(|i| format!("({}, {})", i, idx(look_of_erased(faces[i]))))),
+        clist((0..faces.len()).filter(|i| !shows_on_blank(faces[*i])).map(|i| i.to_string())),
+        clist(obs)
+    );
+    let mut j = input.clone();
+    j["impl"] = match &res {
+        Some(out) => json!(out
+            .iter()
+            .map(|(names, bytes)| json!({"cmds": names, "bytes": bytes.as_ref().map(|b| String::from_utf8_lossy(b).to_string())}))
+            .collect::<Vec<_>>()),
+        None => json!("panic"),
+    };
+    let has_wide = chars.iter().any(|c| S_WIDE.contains(c));
+    Case {
+        coq,
+        json: j,
+        tags: vec!["cmd=Session".to_string(), format!("wide={}", has_wide), format!("frames={}", frames.len())],
+        nontrivial: frames.len() >= 2,
+    }
+}
+
+fn gen_session(rng: &mut Rng) -> Value {
+    let h = 1 + rng.below(3) as usize;
+    let w = 3 + rng.below(8) as usize;
+    let nfaces = 8u64;
+    let k = 2 + rng.below(3) as usize;
+    let mut frames = vec![];
+    let mut prev: Option<Vec<Vec<(u64, u32)>>> = None;
+    for _ in 0..k {
+        // start from the previous surface (incremental rendering) or from blanks, then edit
+        let mut s: Vec<Vec<(u64, u32)>> = match (&prev, rng.below(3)) {
+            (Some(p), 0 | 1) => p.clone(),
+            _ => vec![vec![(0, 32); w]; h],
+        };
+        let edits = 1 + rng.below((h * w) as u64 / 2 + 2);
+        for _ in 0..edits {
+            let (r, c) = (rng.below(h as u64) as usize, rng.below(w as u64) as usize);
+            match rng.below(6) {
+                0 if c + 2 <= w => s[r][c] = (rng.below(nfaces), *rng.pick(&S_WIDE)),
+                1 => {
+                    // a run of blanks in one face (long runs are erased with ECH when the face allows it)
+                    let f = rng.below(nfaces);
+                    let n = 1 + rng.below(w as u64) as usize;
+                    for x in c..(c + n).min(w) {
+                        s[r][x] = (f, 32);
+                    }
+                }
+                _ => {
+                    let ch = *rng.pick(&S_NARROW);
+                    s[r][c] = (rng.below(nfaces), ch);
+                }
+            }
+        }
+        // a wide character must not start in the last column
+        for row in s.iter_mut() {
+            if S_WIDE.contains(&row[w - 1].1) {
+                row[w - 1].1 = 0x61;
+            }
+        }
+        prev = Some(s.clone());
+        frames.push(json!(s.iter().map(|r| r.iter().map(|(f, ch)| json!([f, ch])).collect::<Vec<_>>()).collect::<Vec<_>>()));
+    }
+    json!({"kind": "session", "h": h, "w": w, "frames": frames})
+}
+
 pub fn run(input: &Value) -> Case {
+    if input["kind"] == "session" {
+        return run_session(input);
+    }
     let caps = caps_of(&input["caps"]);
     let stream = input.get("cmds").and_then(|v| v.as_array()).cloned();
     let cmd_values: Vec<Value> = match &stream {
@@ -344,7 +633,9 @@ pub fn run(input: &Value) -> Case {
         coq_cmds.push(coq_cmd);
         colors.extend(cs);
     }
-    let kind = if stream.is_some() { "Stream".to_string() } else { cmd_values[0]["t"].as_str().unwrap_or("Reset").to_string() };
+    let kind = if stream.is_some() {
+        if input["kind"] == "repeat" { "StreamRepeat".to_string() } else { "Stream".to_string() }
+    } else { cmd_values[0]["t"].as_str().unwrap_or("Reset").to_string() };
     let mut oracle = vec![];
     let mut seen: Vec<RGBA> = vec![];
     if caps.depth != ColorDepth::TrueColor {
@@ -577,6 +868,107 @@ fn rand_cmd(rng: &mut Rng) -> Value {
     }
 }
 
+/// commands whose effect is a piece of terminal state: candidates for being sent twice
+fn stateful_cmds(rng: &mut Rng) -> Vec<Value> {
+    let face = json!({"t": "Face", "fg": color_pool(rng), "bg": null, "bits": 9});
+    vec![
+        json!({"t": "KeyboardLevel", "level": "5"}),
+        json!({"t": "KeyboardLevel", "level": "0"}),
+        json!({"t": "KeyboardLevel", "level": "3"}),
+        json!({"t": "DecModeSet", "enable": true, "mode": "AltScreen"}),
+        json!({"t": "DecModeSet", "enable": false, "mode": "AltScreen"}),
+        json!({"t": "DecModeSet", "enable": false, "mode": "VisibleCursor"}),
+        json!({"t": "DecModeSet", "enable": true, "mode": "MouseSGR"}),
+        json!({"t": "DecModeSet", "enable": true, "mode": "BracketedPaste"}),
+        face,
+        json!({"t": "Face", "fg": null, "bg": null, "bits": 0}),
+        json!({"t": "FaceModify", "reset": false, "fg": null, "bg": color_pool(rng), "underline": "UCurly", "ucolor": null,
+               "bold": true, "italic": null, "blink": null, "strike": false}),
+        json!({"t": "FaceModify", "reset": true, "fg": null, "bg": null, "underline": null, "ucolor": null,
+               "bold": null, "italic": null, "blink": null, "strike": null}),
+        json!({"t": "CursorTo", "row": "3", "col": "7"}),
+        json!({"t": "CursorMove", "row": "-1", "col": "2"}),
+        json!({"t": "ScrollRegion", "start": "1", "end": "10"}),
+        json!({"t": "ScrollRegion", "start": "0", "end": "0"}),
+        json!({"t": "Title", "title": "t"}),
+        json!({"t": "Color", "name": {"palette": "1"}, "color": [1, 2, 3, 255]}),
+        json!({"t": "Reset"}),
+        json!({"t": "CursorSave"}),
+        json!({"t": "CursorRestore"}),
+        json!({"t": "EraseScreen"}),
+        json!({"t": "Char", "c": 120}),
+    ]
+}
+
+/// what may stand between two sends of the same command and make the terminal forget it
+fn separators() -> Vec<Value> {
+    vec![
+        json!({"t": "Reset"}),
+        json!({"t": "DecModeSet", "enable": true, "mode": "AltScreen"}),
+        json!({"t": "DecModeSet", "enable": false, "mode": "AltScreen"}),
+        json!({"t": "KeyboardLevel", "level": "1"}),
+        json!({"t": "DecModeSet", "enable": true, "mode": "VisibleCursor"}),
+        json!({"t": "DecModeSet", "enable": false, "mode": "MouseSGR"}),
+        json!({"t": "Face", "fg": null, "bg": [9, 9, 9, 255], "bits": 16}),
+        json!({"t": "FaceModify", "reset": true, "fg": null, "bg": null, "underline": null, "ucolor": null,
+               "bold": null, "italic": null, "blink": null, "strike": null}),
+        json!({"t": "CursorTo", "row": "0", "col": "0"}),
+        json!({"t": "ScrollRegion", "start": "2", "end": "3"}),
+        json!({"t": "Title", "title": "other"}),
+        json!({"t": "Char", "c": 65}),
+    ]
+}
+
+/// Streams with deliberate repetitions through ONE encoder object: [x, x], [x, sep, x] for every
+/// stateful command x and separator, and longer random mixtures.  An encoder that remembers what it
+/// sent (and skips a repeat) is caught whenever the terminal has forgotten in between.
+fn repeat_streams(rng: &mut Rng, random: usize, v: &mut Vec<Value>) {
+    let seps = separators();
+    for (k, kitty) in [true, false].into_iter().enumerate() {
+        let xs = stateful_cmds(rng);
+        let depth = DEPTHS[k % 3];
+        for x in &xs {
+            v.push(json!({"caps": caps_json(depth, kitty, false), "kind": "repeat", "cmds": [x, x]}));
+            for (i, sep) in seps.iter().enumerate() {
+                // without the kitty capability only a third of the separators (the keyboard arms are silent)
+                if !kitty && i % 3 != 0 {
+                    continue;
+                }
+                v.push(json!({"caps": caps_json(depth, kitty, false), "kind": "repeat", "cmds": [x, sep, x]}));
+            }
+        }
+        // alternate-screen round trips with the keyboard level re-sent on each screen
+        let kl = |l: &str| json!({"t": "KeyboardLevel", "level": l});
+        let alt = |e: bool| json!({"t": "DecModeSet", "enable": e, "mode": "AltScreen"});
+        v.push(json!({"caps": caps_json(depth, kitty, false), "kind": "repeat",
+                      "cmds": [kl("5"), alt(true), kl("5"), alt(false), kl("5"), alt(true), kl("5"), {"t": "Reset"}, kl("5")]}));
+        v.push(json!({"caps": caps_json(depth, kitty, false), "kind": "repeat",
+                      "cmds": [alt(true), alt(true), kl("0"), alt(false), alt(false), kl("0"), {"t": "Reset"}, kl("0"), alt(true), kl("5")]}));
+    }
+    for _ in 0..random {
+        let xs = stateful_cmds(rng);
+        let x = rng.pick(&xs).clone();
+        let len = 3 + rng.below(7) as usize;
+        let mut cmds = vec![x.clone()];
+        while cmds.len() < len {
+            let c = match rng.below(5) {
+                0 | 1 => x.clone(),
+                2 => rng.pick(&seps).clone(),
+                3 => rng.pick(&xs).clone(),
+                _ => loop {
+                    let c = rand_cmd(rng);
+                    if c["t"] != "Raw" {
+                        break c;
+                    }
+                },
+            };
+            cmds.push(c);
+        }
+        cmds.push(x);
+        v.push(json!({"caps": rand_caps(rng), "kind": "repeat", "cmds": cmds}));
+    }
+}
+
 pub fn generate(rng: &mut Rng, n: usize, tier: &str) -> Vec<Value> {
     let thorough = tier == "thorough";
     let mut v = vec![];
@@ -671,6 +1063,12 @@ pub fn generate(rng: &mut Rng, n: usize, tier: &str) -> Vec<Value> {
     v.push(json!({"caps": caps, "cmds": [{"t": "Char", "c": 0x9b}, {"t": "Char", "c": 50}, {"t": "Char", "c": 74}]}));
     v.push(json!({"caps": caps, "cmd": {"t": "Termcap", "names": ["", "Co"]}}));
     v.push(json!({"caps": caps, "cmd": {"t": "Termcap", "names": ["\u{e9}\u{20ac}\u{1f600}", "TN"]}}));
+    // (e2) repetitions of stateful commands through one encoder object
+    repeat_streams(rng, if thorough { 4000 } else { 300 }, &mut v);
+    // (e3) renderer sessions: the real TerminalRenderer's commands, encoded, interpreted on C01's screen
+    for _ in 0..(if thorough { 1500 } else { 120 }) {
+        v.push(gen_session(rng));
+    }
     // (f) random commands under random capabilities; every fifth case is a stream of 2..6 commands
     //     (no Raw) through one encoder object
     let fixed = v.len();
